@@ -559,6 +559,13 @@ fn c09_hist(input: &Input, obs: &mut Obs) -> Result<(), Fail> {
     let mut died_in_flight = false;
     let mut trips_after = 0;
     let r = (|| -> Result<(), (String, String)> {
+        // now and then an adversary's connection request is already waiting when the witness connects
+        if s.chance(70) {
+            for a in 1..=1 + s.below(nadv) {
+                w.connect(a);
+            }
+            obs.label("connections_waiting_when_the_witness_connects");
+        }
         w.connect(wit);
         w.settle(200, false);
         witness_roundtrip(&mut w, wit, &mut s, budget)?;
@@ -1592,18 +1599,118 @@ fn c10_micro(input: &Input, obs: &mut Obs) -> Result<(), Fail> {
     }
 }
 
+/// Very many unanswered requests on one connection (around 2^8 and 2^16), one more request from
+/// it arriving in the same batch as the completion of another client's request; then both
+/// clients leave, everything is answered, and the server holds nothing. params = [n, order]
+fn c10_flood(input: &Input, obs: &mut Obs) -> Result<(), Fail> {
+    SERVER_FROM_FD.with(|c| c.set(false));
+    KILL_AFTER_START.with(|c| c.set(false));
+    let p = input.params();
+    let n = p[0] as usize;
+    let b_first = p[1] == 0;
+    let mut w = World::new(4, false, false).map_err(|e| Fail::new("harness-world", e))?;
+    let spec = ReqSpec { method: 0, version: 1, body: 0, expect: false, extra_headers: 0, body_kind: 0 };
+    let r = (|| -> Result<(), (String, String)> {
+        // connection order decides the order of the two events in the last batch
+        let (a, b) = if b_first { (1usize, 0usize) } else { (0usize, 1usize) };
+        w.connect(0);
+        w.settle(50, true);
+        w.connect(1);
+        w.settle(50, true);
+        // B: the first half of a request
+        let bb = w.compose(b, &spec);
+        w.send_raw(b, &bb[..10]);
+        w.settle(50, true);
+        // A: n complete requests, never answered for now
+        let mut buf = Vec::new();
+        for _ in 0..n {
+            buf.extend_from_slice(&w.compose(a, &spec));
+            if buf.len() > 60_000 {
+                w.send_raw(a, &buf);
+                buf.clear();
+                w.settle(4000, true);
+            }
+        }
+        if !buf.is_empty() {
+            w.send_raw(a, &buf);
+        }
+        w.settle(100_000, true);
+        if let Some(PollRes::Err(e)) = w.poll_results.iter().find(|r| matches!(r, PollRes::Err(_))) {
+            return Err((format!("requests-err:{}", e), format!("requests() returned Err({}) with {} unanswered requests on one connection", e, w.outstanding.len())));
+        }
+        if w.clients[a].yielded.len() != n {
+            return Err(("disturbed".into(), format!("{} complete requests sent on one connection, {} yielded", n, w.clients[a].yielded.len())));
+        }
+        // one more from A and the rest of B's request, before the next poll
+        let one_more = w.compose(a, &spec);
+        w.send_raw(a, &one_more);
+        w.send_raw(b, &bb[10..]);
+        w.settle(200, true);
+        if let Some(PollRes::Err(e)) = w.poll_results.iter().find(|r| matches!(r, PollRes::Err(_))) {
+            return Err((format!("requests-err:{}", e), format!("requests() returned Err({}) with {} unanswered requests on one connection", e, n)));
+        }
+        if w.clients[a].yielded.len() != n + 1 || w.clients[b].yielded.len() != 1 {
+            return Err(("disturbed".into(), format!("after {} unanswered requests: client A yielded {} of {}, client B {} of 1", n, w.clients[a].yielded.len(), n + 1, w.clients[b].yielded.len())));
+        }
+        // both leave; everything is answered late
+        w.close_client(a);
+        w.close_client(b);
+        w.settle(200, true);
+        while !w.outstanding.is_empty() {
+            let k = w.outstanding.len() - 1;
+            if !w.respond(k, 200, 0) {
+                return Err(("respond-err".into(), w.api_errors.last().cloned().unwrap_or_default()));
+            }
+        }
+        w.settle(2000, true);
+        if let Some(PollRes::Err(e)) = w.poll_results.iter().find(|r| matches!(r, PollRes::Err(_))) {
+            return Err((format!("requests-err:{}", e), format!("requests() returned Err({})", e)));
+        }
+        let held = w.held();
+        if held != 0 {
+            return Err(("fd-leak".into(), format!("all clients closed and all {} requests answered, yet the server still holds {} connection descriptors", n + 2, held)));
+        }
+        Ok(())
+    })();
+    obs.nontrivial = true;
+    if obs.want_render {
+        obs.render = format!("{} unanswered requests on one connection, other client's connection accepted {}", n, if b_first { "first" } else { "second" });
+    }
+    match r {
+        Ok(()) => Ok(()),
+        Err((sig, msg)) => Err(Fail::new(&format!("C10:{}", sig), msg)),
+    }
+}
+
+fn c10_flood_enum(tier: Tier, shard: u64, nshards: u64, f: &mut dyn FnMut(&[u64]) -> bool) {
+    let mut ns: Vec<u64> = vec![254, 255, 256, 257, 65534, 65535, 65536];
+    if tier != Tier::Quick {
+        ns.extend([127, 128, 129, 32767, 32768, 65537, 131072]);
+    }
+    let mut c = 0u64;
+    for n in ns {
+        for order in 0..2u64 {
+            c += 1;
+            if c % nshards == shard && !f(&[n, order]) {
+                return;
+            }
+        }
+    }
+}
+
 fn c10_plan(tier: Tier) -> Vec<Job> {
     let q = tier == Tier::Quick;
     vec![
         Job { sub: "hist", kind: JobKind::Pbt { cases: if q { 10_000 } else { 200_000 }, max_len: 600 }, smallbuf: false },
         Job { sub: "micro", kind: JobKind::Pbt { cases: if q { 20_000 } else { 400_000 }, max_len: 400 }, smallbuf: false },
+        Job { sub: "flood", kind: JobKind::Enum { f: c10_flood_enum, bound: "n unanswered requests on one connection for n in {254..257, 65534..65536} (thorough: also around 2^7, 2^15, 2^16+1, 2^17) x both accept orders of the two clients" }, smallbuf: false },
     ]
 }
 
 pub fn c10() -> PropDef {
     PropDef {
         id: "C10",
-        subs: vec![("hist", c10_hist), ("micro", c10_micro)],
+        subs: vec![("hist", c10_hist), ("micro", c10_micro), ("flood", c10_flood)],
         plan: c10_plan,
         rule: "case = history of 10..90 macro-operations over up to 64 client slots, biased to hover at 9..12 simultaneous connections in repeated fill/drain cycles: connect, close, shutdown(RDWR), send request, send partial request, respond (small or 300 KB), read, and bursts of several connects/closes between two polls; each macro-operation is followed by a settle; oracle = a client connecting while 10 are held receives exactly the fixed 503 message then EOF, one connecting while fewer are held is accepted (either outcome when a slot is freed in the same batch), never more than 10 served, existing connections undisturbed, descriptors held (via /proc/self/fd) between #open and #open+#dead-with-unanswered-requests at every quiescent point and exactly listener+epoll at the end; non-trivial = reached 10 held connections with >=1 refusal and >=1 later successful connect; further operations: a client that does not read is sent 300 KB..1 MB so that a response is partly written when it hangs up; 2..4 requests (some with Expect) reaching the server in one read",
         assumptions: vec!["capacity decisions are judged at quiescent points (after a settle)"],
@@ -1864,7 +1971,7 @@ fn c07_macro_enum(tier: Tier, shard: u64, nshards: u64, f: &mut dyn FnMut(&[u64]
 fn c07_hist(input: &Input, obs: &mut Obs) -> Result<(), Fail> {
     let mut s = Src::new(input.bytes());
     world_variant(&mut s);
-    let skeleton = s.weighted(&[6, 6, 3, 1]);
+    let skeleton = s.weighted(&[6, 6, 3, 1, 1]);
     let nslots = if skeleton == 2 { 24 } else { 10 };
     let mut w = World::new(nslots, false, obs.want_render).map_err(|e| Fail::new("harness-world", e))?;
     let mut next_slot = 0usize;
@@ -1925,6 +2032,65 @@ fn c07_hist(input: &Input, obs: &mut Obs) -> Result<(), Fail> {
                 w.send_request(c2, &spec, &[]);
             }
             w.settle(200, false);
+            c07_audit_all(&w)?;
+        }
+        if skeleton == 4 {
+            // a client that does not read is answered with more than its socket takes and the
+            // application flushes: the server gives that connection up (the response stays cut
+            // short); whatever the application supplies for it afterwards must not follow the
+            // truncated response on the wire
+            let spec = ReqSpec { method: 0, version: 1, body: 0, expect: false, extra_headers: 0, body_kind: 0 };
+            let c = next_slot;
+            w.connect(c);
+            next_slot += 1;
+            let other = if s.chance(128) {
+                w.connect(next_slot);
+                next_slot += 1;
+                Some(next_slot - 1)
+            } else {
+                None
+            };
+            w.settle(100, false);
+            let k = s.range(2, 4);
+            for _ in 0..k {
+                w.send_request(c, &spec, &[]);
+            }
+            if let Some(o) = other {
+                w.send_request(o, &spec, &[]);
+            }
+            w.settle(200, false);
+            w.clients[c].lazy = true;
+            if let Some(kk) = w.outstanding.iter().position(|o| o.c == c) {
+                w.respond(kk, 200, [300_000usize, 600_000, 1_200_000][s.below(3)]);
+                for _ in 0..s.below(3) {
+                    w.poll();
+                }
+                w.flush();
+                obs.label("flush_to_a_client_that_does_not_read");
+                // further answers for the same connection, and for the bystander
+                while let Some(kk) = w.outstanding.iter().position(|o| o.c == c) {
+                    w.respond(kk, 200, s.range(0, 100));
+                    if s.chance(100) {
+                        w.poll();
+                    }
+                    if s.chance(60) {
+                        w.flush();
+                    }
+                }
+                if let Some(o) = other {
+                    if let Some(kk) = w.outstanding.iter().position(|x| x.c == o) {
+                        w.respond(kk, 200, s.range(0, 100));
+                    }
+                }
+                // now the client reads, in pieces, with polls in between
+                w.clients[c].lazy = false;
+                for _ in 0..6 {
+                    w.read_client(c, [1000usize, 100_000, usize::MAX][s.below(3)]);
+                    w.settle(200, false);
+                }
+                w.read_client(c, usize::MAX);
+            }
+            w.settle(300, false);
             c07_audit_all(&w)?;
         }
         if skeleton == 3 {
@@ -2194,7 +2360,8 @@ enum KOp {
     Read(usize),
     Close(usize),
     Poll,
-    Respond(usize, usize),
+    /// (which outstanding request, body size, status, response version: 0/1, 2 = the request's)
+    Respond(usize, usize, u16, u8),
     Settle,
     Flush,
     /// a second response for an already answered request of an idle connection
@@ -2250,10 +2417,10 @@ fn k_apply(w: &mut World, op: &KOp, next_slot: &mut usize) {
         KOp::Poll => {
             w.poll();
         }
-        KOp::Respond(k, size) => {
+        KOp::Respond(k, size, code, v) => {
             if !w.outstanding.is_empty() {
                 let k = *k % w.outstanding.len();
-                w.respond(k, 200, *size);
+                w.respond_v(k, *code, *size, if *v < 2 { Some(*v) } else { None });
             }
         }
         KOp::Settle => {
@@ -2298,7 +2465,7 @@ fn k_gen(s: &mut Src) -> (Vec<KOp>, bool) {
             3 => KOp::Read(s.u8() as usize),
             4 => KOp::Close(s.u8() as usize),
             5 => KOp::Poll,
-            6 => KOp::Respond(s.u8() as usize, resp_size(s, true)),
+            6 => KOp::Respond(s.u8() as usize, resp_size(s, true), [200u16, 200, 404, 100, 204, 503][s.weighted(&[8, 8, 2, 2, 2, 1])], s.weighted(&[2, 2, 8]) as u8),
             _ => KOp::Settle,
         };
         ops.push(op);
